@@ -300,6 +300,15 @@ class ArgSet:
             self.vars.append((name, v, ctype))
             return v, v
         iv = d.var(nb, name, signed=sg)
+        rg = self.kernel.arg_ranges.get(name)
+        if rg is not None and hasattr(iv, "urng") and iv.e is None:
+            # interval hint (INT mode); sound because the kernel's precondition implies it and is a base fact
+            if sg:
+                iv.srng = (max(rg[0], -(1 << (nb - 1))), min(rg[1], (1 << (nb - 1)) - 1))
+                iv.urng = iv.srng if iv.srng[0] >= 0 else None
+            else:
+                iv.urng = (max(rg[0], 0), min(rg[1], (1 << nb) - 1))
+                iv.srng = iv.urng if iv.urng[1] < (1 << (nb - 1)) else None
         zv = iv.e if iv.e is not None else (iv._s if sg else iv._u)
         self.vars.append((name, zv, ctype))
         self.exr.base_facts += d.range_facts(iv, sg)
